@@ -1,9 +1,11 @@
 import BadgerModel.Driver.Loop
-/-! `bmd_crash <engine>`: line-protocol driver (see CONVENTIONS.md). -/
+import BadgerModel.Driver.Crash
+/-! `bmd_crash <engine>`: line-protocol driver (see CONVENTIONS.md). Engines: `crash`. -/
 open Badger.Driver
 
 def main (args : List String) : IO UInt32 := do
   let stdin ← IO.getStdin
   let stdout ← IO.getStdout
   match args with
-  | _ => IO.eprintln "usage: bmd_crash <engine>"; return 2
+  | ["crash"] => statefulLoop stdin stdout crashStep ({} : CrashDrv); return 0
+  | _ => IO.eprintln "usage: bmd_crash <crash>"; return 2
